@@ -132,6 +132,7 @@ def run(prog, rep, tier):
                         if (a.get("k") or {}).get("v") == 255:
                             masks.append((b, bi, rv["op"]))
         ands = sum(1 for b in bodies for bi in b.live for s_ in b.blocks[bi]["s"] if s_.get("rv") and s_["rv"]["r"] == "bin" and s_["rv"]["op"] == "BitAnd")
+        ands += sum(1 for b in bodies for bi, t_ in b.calls(re.compile(r".*BitAnd(<.*>)?(>)?::bitand$|.*BitAndAssign.*::bitand_assign$")))
         if not masks or not ands:
             r1.unanalysable("validate: the masking of the lookup key (byte &= 0xff << (8 - bits)) was not recognised", fv.loc())
         elif all(op.startswith("Shl") for _, _, op in masks):
@@ -216,7 +217,35 @@ def run(prog, rep, tier):
     is_origin = lambda x: x[0] != "const" and "as_number" not in expr_fields(x)
     # the quantity compared with max_length must be the *route's* prefix length (`mask`, taken from the NLRI), not the
     # covering VRP's own length the lookup loop iterates over
-    not_maxlen = lambda x: "max_length" not in expr_fields(x) and ("mask" in expr_vars(x) or "mask" in expr_fields(x))
+    def _place_from_mask(b_, q_, depth=6):
+        """The place is (a copy of) an NLRI prefix length: following copies, casts and tuples built and taken apart again leads
+        to a place with a field called `mask`."""
+        if q_ is None or depth <= 0:
+            return False
+        proj = q_.get("p") or []
+        if any(isinstance(e_, dict) and e_.get("n") == "mask" for e_ in proj):
+            return True
+        idx = [e_.get("f") for e_ in proj if isinstance(e_, dict) and "f" in e_]
+        for bi_, si_, st_ in b_.defs().get(q_["l"], []):
+            if si_ == "t" or (st_["p"].get("p") and not proj):
+                continue
+            rv_ = st_["rv"]
+            if rv_["r"] in ("use", "cast"):
+                q2 = rv_["o"].get("c") or rv_["o"].get("m")
+                if q2 is not None:
+                    q3 = {"l": q2["l"], "p": (q2.get("p") or []) + [e_ for e_ in proj if isinstance(e_, dict) and "f" in e_]} if proj else q2
+                    if _place_from_mask(b_, q3, depth - 1):
+                        return True
+            elif rv_["r"] == "agg" and rv_.get("k") == "tuple" and idx and idx[0] < len(rv_["fields"]):
+                f_ = rv_["fields"][idx[0]]
+                q2 = f_.get("c") or f_.get("m")
+                if q2 is not None and _place_from_mask(b_, q2, depth - 1):
+                    return True
+        return False
+
+    def _from_mask(b_, name, depth=6):
+        return any(_place_from_mask(b_, {"l": l_}, depth) for l_, n_ in b_.local_name.items() if n_ == name)
+    not_maxlen = lambda x: "max_length" not in expr_fields(x) and ("mask" in expr_vars(x) or "mask" in expr_fields(x) or any(_from_mask(bb_, v_) for bb_ in bodies for v_ in expr_vars(x)))
     for b, bi in pushes.get("matched", []):
         rels = rels_for(b, bi)
         probs = []
